@@ -235,14 +235,19 @@ CLAIMED = {
         '(C15_vocabulary_contract, finite); for EVERY parameter slot of the C01 model, what the writer emits is read back by the '
         'compiler\'s reader as the same direction, caller-allocation, nullable, optional, skip and transfer '
         '(C15_parameter_flags_roundtrip); the reader as found is refuted (C15_inout_nullable_refuted_before_fix, fix e1eedbc). Tie: GIRs '
-        'written by the real scanner passes for three generators (annotated callables, runtime-dump worlds, declaration worlds) are '
+        'written by the real scanner passes for six generators (annotated callables, runtime-dump worlds, structure/virtual-method '
+        'worlds, declaration worlds, constants cast to every kind of type with unions, structures with anonymous, nested and '
+        'function-pointer members) and the 12 shipped tests/scanner/*-expected.gir files (output of the real C lexer; includes '
+        'satisfied by stub GIRs, gir/cairo-1.0.gir.in and each other) are '
         'compiled by the real g-ir-compiler (must be silent), validated by g_typelib_validate and walked through the repository API; '
         'top-level names, callable paths, parameter lists and every parameter/return flag are compared (flags inside Coq against '
         'Model.C15).',
    note='PARTIAL: the whole-pipeline statement (every scanner output is accepted and faithfully exposed) is validated per run, not '
         'proved; proved are the vocabulary contract and the parameter attribute round trip. Trusted: Coq kernel+VM; gen_c15.py '
         '(Python-ast walk of girwriter.py, regex over girparser.c); stub lexer and stub include GIRs; docs/gir-1.2.rnc is not consulted. '
-        'Not generated: unions with function-pointer members (F14), gunichar constants (F16), type structure (C06).',
+        'Known finding C15-K1 (union with a function-pointer member aborts the compiler) is printed as KNOWN-FINDING. Fixed in /repo on the '
+        'way: 4dd319e, e1eedbc, 7e3498a, d85154f (gunichar constants), 1652d1c (pointer/unknown-typed constants), 4dd2de6 (record in '
+        'record). Type structure is C06\'s subject.',
    ref='DESIGN.md §4 C15'),
  'C03': dict(
    technique='Coq proof over a model of identifier-level annotation application (block keys, tags, target annotations, rename-to as a state machine) + in-Coq correspondence through the real comment parser, MainTransformer and GIRWriter',
